@@ -120,7 +120,7 @@ namespace TAO_PEGTL_NAMESPACE
          constexpr Unsigned maximum = static_cast< Unsigned >( ( std::numeric_limits< Signed >::max )() ) + 1;
          Unsigned temporary = 0;
          if( accumulate_digits< Unsigned, maximum >( temporary, input ) ) {
-            result = static_cast< Signed >( ~temporary ) + 1;
+            result = static_cast< Signed >( ~temporary + 1 );
             return true;
          }
          return false;
